@@ -330,10 +330,15 @@ else:
         return datetime.datetime.strptime(instance, "%Y-%m-%d")
 
 
+_RE_FULL_DATE = re.compile(r"[0-9]{4}-[0-9]{2}-[0-9]{2}")
+
+
 @_checks_drafts(draft3="date", draft7="date", raises=ValueError)
 def is_date(instance):
     if not isinstance(instance, str):
         return True
+    if not _RE_FULL_DATE.fullmatch(instance):
+        return False
     return _is_date(instance)
 
 
